@@ -884,6 +884,7 @@ fn finish(
         base,
         compile,
         engine_seed: re.next_u64(),
+        depth: 0,
         tags: all_tags,
     };
     Generated { scenario, faults }
